@@ -74,6 +74,11 @@ def gen(rng, tier):
         rhs = gen_dm.rand_formula(rng, with_group=0.2, response="").split("~", 1)[1].strip()
         cases.append({"formula": f"o ~ {rhs}", "frame": fr, "na": "drop", "kind": "cat", "resp": "o", "rhs": rhs,
                       "tag": "unobserved-level"})
+    for resp, kind in [("y", "num"), ("f", "cat"), ("o", "cat"), ("f['b']", "level"), ("I(y * 2)", "expr"),
+                       ("prop(succ, n_trials)", "prop"), ("center(y)", "call")]:
+        for rhs in ["0", "-1", "1 - 1", "x - x - 1", "0 + x - x"]:
+            cases.append({"formula": f"{resp} ~ {rhs}", "frame": gen_dm.make_frame(rng), "na": "drop", "kind": kind,
+                          "resp": resp, "rhs": rhs, "tag": "empty-rhs"})
     for rhs in ["x + f", "0 + x", "x + (1|g)"]:
         cases.append({"formula": rhs, "frame": gen_dm.make_frame(rng), "na": "drop", "kind": "none", "resp": None, "rhs": rhs})
     return cases
@@ -104,6 +109,8 @@ def oracle(c):
         return f"{f!r}: a response that is not a single term was accepted"
     if kind == "none":
         return None if d.response is None else f"{f!r}: a response was produced for a formula without '~'"
+    if d.response is None:
+        return f"{f!r} names a response but the design has none"
     R = np.asarray(d.response.design_matrix, dtype=float)
     if R.ndim == 1:
         R = R[:, None]
